@@ -200,18 +200,38 @@ theorem shift_shift_neg_partial (a : Annotation) (k : Int) (hn : a.seq ≠ []) (
         rw [shiftEntry_inverse e _ _ he0 he rfl p (hr p (by simp))]
         congr 2
         exact map_eq_self _ t (fun q hq => shiftEntry_inverse e _ _ he0 he rfl q (hr q (by simp [hq])))
-  · rw [hciv, hbiv]
+  · rw [hbiv] at hciv
     cases hL : a.intervals with
-    | none => rfl
+    | none => rw [hL] at hciv; exact hciv
     | some L =>
       cases L with
       | nil => exact absurd hL hivne
       | cons iv t =>
-        simp only [List.map_cons, List.map_map]
-        rw [shiftInterval_inverse e _ _ iv he0 he rfl (hwf _ hL iv (by simp)) (hnw' _ hL iv (by simp))]
-        congr 2
-        exact map_eq_self _ t (fun q hq => shiftInterval_inverse e _ _ q he0 he rfl (hwf _ hL q (by simp [hq]))
-          (hnw' _ hL q (by simp [hq])))
+        rw [hL] at hciv
+        simp only at hciv
+        have hok := hwf _ hL
+        have hne : sortBy (fun (x : Interval) => x.start.toNat)
+            ((iv :: t).map (shiftInterval (e : Int) (a.seq.length : Int))) ≠ [] := by
+          intro h
+          have := sortBy_length (fun (x : Interval) => x.start.toNat)
+            ((iv :: t).map (shiftInterval (e : Int) (a.seq.length : Int)))
+          rw [h] at this; simp at this
+        obtain ⟨x, xs, hx⟩ := List.exists_cons_of_ne_nil hne
+        rw [hx] at hciv
+        simp only at hciv
+        rw [← hx] at hciv
+        rw [hciv]
+        congr 1
+        apply eq_of_perm_of_sorted (fun (x : Interval) => x.start.toNat)
+        · refine (sortBy_perm _ _).trans ?_
+          refine ((sortBy_perm _ _).map _).trans ?_
+          rw [List.map_map]
+          have := map_eq_self (shiftInterval (if (e : Int) = 0 then 0 else (a.seq.length : Int) - (e : Int))
+              (a.seq.length : Int) ∘ shiftInterval (e : Int) (a.seq.length : Int)) (iv :: t)
+            (fun q hq => shiftInterval_inverse e _ _ q he0 he rfl (hok.1 q hq) (hnw' _ hL q hq))
+          rw [this]
+        · exact sortBy_sorted _ _
+        · exact startSorted_of_ok _ _ hok.1 hok.2
   · rw [c5, g5]
   · rw [c6, g6]
 example : demo.seq ≠ [] ∧ KeysOK demo ∧ demo.internal ≠ some [] ∧ demo.intervals ≠ some [] ∧ IntervalsOK demo ∧ NoWrap demo 3 :=
@@ -256,9 +276,11 @@ theorem shift_multiple (a : Annotation) (k : Int) (hn : a.seq ≠ []) (hk : Keys
       cases L with
       | nil => exact absurd hL hivne
       | cons iv t =>
+        have hok := hwf _ hL
         simp only
         congr 1
-        exact map_eq_self _ _ (fun q hq => shiftInterval_zero _ q (by omega) (hwf _ hL q hq))
+        rw [map_eq_self _ (iv :: t) (fun q hq => shiftInterval_zero _ q (by omega) (hok.1 q hq))]
+        exact sortBy_of_sorted _ _ ((startSorted_of_ok _ _ hok.1 hok.2).imp (fun h => Nat.le_of_lt h))
 
 theorem shift_length (a : Annotation) (hn : a.seq ≠ []) (hk : KeysOK a)
     (hint : a.internal ≠ some []) (hivne : a.intervals ≠ some []) (hwf : IntervalsOK a) :
@@ -358,12 +380,14 @@ theorem shift_wraparound_false_on_current_code :
     ((shift wrapWitness 1).toOption.bind fun b => (shift b (-1)).toOption) ≠ some wrapWitness := by
   decide
 
-/-- cover law of shift: when no interval wraps, every interval keeps its modifications and its flag, and position `i` of the
+/-- cover law of shift: when no interval wraps, the new intervals are the shifted ones in sequence order; every interval keeps
+its modifications and its flag, and position `i` of the
 rotated peptide is covered iff its source position `(i + k) mod n` was covered -/
 theorem shift_intervals_cover (a : Annotation) (k : Int) (hn : a.seq ≠ []) (hk : KeysOK a) (hwf : IntervalsOK a)
     (hnw : NoWrap a k) (L : List Interval) (hL : a.intervals = some L) (hLne : L ≠ []) :
     ∃ b, shift a k = .ok b ∧
-      b.intervals = some (L.map (shiftInterval (k % (a.seq.length : Int)) a.seq.length)) ∧
+      b.intervals = some (sortBy (fun (iv : Interval) => iv.start.toNat)
+        (L.map (shiftInterval (k % (a.seq.length : Int)) a.seq.length))) ∧
       ∀ iv ∈ L,
         (shiftInterval (k % (a.seq.length : Int)) a.seq.length iv).mods = iv.mods ∧
         (shiftInterval (k % (a.seq.length : Int)) a.seq.length iv).ambiguous = iv.ambiguous ∧
@@ -380,13 +404,13 @@ theorem shift_intervals_cover (a : Annotation) (k : Int) (hn : a.seq ≠ []) (hk
     | nil => exact absurd rfl hLne
     | cons iv t => rfl
   · intro iv hiv
-    have w := hwf L hL iv hiv
+    have w := (hwf L hL).1 iv hiv
     have nw := hnw L hL iv hiv
     refine ⟨?_, ?_, fun i hi0 hi => shiftInterval_cover _ _ iv he0 he w nw i hi0 hi⟩
     · rw [shiftInterval_nowrap _ _ iv he0 he w nw]
     · rw [shiftInterval_nowrap _ _ iv he0 he w nw]
 example : (shift demo 3).toOption.map (·.intervals) =
-    some (some [⟨5, 7, false, some [⟨.int 1, 1⟩]⟩, ⟨0, 2, true, none⟩]) := by decide
+    some (some [⟨0, 2, true, none⟩, ⟨5, 7, false, some [⟨.int 1, 1⟩]⟩]) := by decide
 
 theorem split_concat (a : Annotation) : (split a).flatMap residues = residues a := by
   unfold split
